@@ -153,11 +153,11 @@ theorem childExtents_is_bbox (bs : List Box) (hne : bs ≠ []) :
   · obtain ⟨b, hb, e⟩ := List.mem_map.mp (maxL_mem (bs.map fun b => b.y + b.cy) (by simpa using hne))
     exact ⟨b, hb, by omega⟩
 
-/-- every group's stored box is the extents of its members' boxes, recursively -/
+/-- every group's stored frame and child space are the extents of its members' boxes, recursively -/
 inductive WF : G → Prop
   | leaf (b : Box) : WF (.leaf b)
-  | grp (b : Box) (kids : List G) :
-      b = childExtents (kids.map G.box) → (∀ k ∈ kids, WF k) → WF (.grp b kids)
+  | grp (b ch : Box) (kids : List G) :
+      b = childExtents (kids.map G.box) → ch = b → (∀ k ∈ kids, WF k) → WF (.grp b ch kids)
 
 /-- **Any addition at any nesting depth keeps every group equal to the bounding box of its
     members, recursively** — given that the addition recalculates upwards (`addAt`). -/
@@ -167,9 +167,9 @@ theorem addAt_wf (path : List Nat) (new g : G) (hg : WF g) (hn : WF new) :
   | nil =>
     cases hg with
     | leaf b => exact WF.leaf b
-    | grp b kids hb hk =>
+    | grp b ch kids hb hc hk =>
       simp only [G.addAt]
-      refine WF.grp _ _ rfl ?_
+      refine WF.grp _ _ _ rfl rfl ?_
       intro k hkm
       rcases List.mem_append.mp hkm with h | h
       · exact hk k h
@@ -177,13 +177,13 @@ theorem addAt_wf (path : List Nat) (new g : G) (hg : WF g) (hn : WF new) :
   | cons i path ih =>
     cases hg with
     | leaf b => exact WF.leaf b
-    | grp b kids hb hk =>
+    | grp b ch kids hb hc hk =>
       simp only [G.addAt]
       cases hki : kids[i]? with
-      | none => exact WF.grp b kids hb hk
+      | none => exact WF.grp b ch kids hb hc hk
       | some k =>
         simp only
-        refine WF.grp _ _ rfl ?_
+        refine WF.grp _ _ _ rfl rfl ?_
         intro k' hk'
         rcases List.mem_or_eq_of_mem_set hk' with h | h
         · exact hk k' h
@@ -199,20 +199,68 @@ theorem addAt_run_wf (adds : List (List Nat × G)) (g : G) (hg : WF g)
     simp only [List.foldl_cons]
     exact ih _ (addAt_wf a.1 a.2 g hg (hn a (by simp))) (fun x hx => hn x (by simp [hx]))
 
-theorem emptyGrp_wf : WF G.emptyGrp := WF.grp _ _ (by simp [childExtents]) (by simp)
+theorem emptyGrp_wf : WF G.emptyGrp := WF.grp _ _ _ (by simp [childExtents]) rfl (by simp)
+
+/-- the group itself (not necessarily its descendants) equals the bounding box of its members -/
+def LocalOK : G → Prop
+  | .leaf _ => True
+  | .grp b ch kids => b = childExtents (kids.map G.box) ∧ ch = b
+
+/-- every group on the addressed path is `LocalOK` -/
+def PathOK : List Nat → G → Prop
+  | [], g => LocalOK g
+  | i :: path, .grp b ch kids => LocalOK (.grp b ch kids) ∧ ∀ k, kids[i]? = some k → PathOK path k
+  | _ :: _, .leaf _ => True
+
+/-- path addresses groups all the way down -/
+def ValidPath : List Nat → G → Prop
+  | [], .grp _ _ _ => True
+  | [], .leaf _ => False
+  | i :: path, .grp _ _ kids => ∃ k, kids[i]? = some k ∧ ValidPath path k
+  | _ :: _, .leaf _ => False
+
+/-- **Whatever state the tree was in** (groups moved or resized through the public setters, stale
+    ancestors), an addition re-establishes "frame = child space = bounding box of members" for the
+    group added to and for every group above it. -/
+theorem addAt_path_ok (path : List Nat) (new g : G) (hv : ValidPath path g) :
+    PathOK path (G.addAt path new g) := by
+  induction path generalizing g with
+  | nil =>
+    cases g with
+    | leaf b => exact absurd hv (by simp [ValidPath])
+    | grp b ch kids => simp [G.addAt, PathOK, LocalOK]
+  | cons i path ih =>
+    cases g with
+    | leaf b => exact absurd hv (by simp [ValidPath])
+    | grp b ch kids =>
+      obtain ⟨k, hk, hvk⟩ := hv
+      simp only [G.addAt, hk, PathOK, LocalOK]
+      refine ⟨by simp, ?_⟩
+      intro k' hk'
+      have hi : i < kids.length := by
+        rcases List.getElem?_eq_some_iff.mp hk with ⟨h, _⟩; exact h
+      rw [List.getElem?_set_self hi] at hk'
+      injection hk' with hk'; subst hk'
+      exact ih k hvk
 
 /-- non-vacuity: a nested addition -/
-example : G.addAt [0] (.leaf ⟨5, 5, 10, 10⟩) (.grp ⟨0, 0, 0, 0⟩ [G.emptyGrp]) =
-    .grp ⟨5, 5, 10, 10⟩ [.grp ⟨5, 5, 10, 10⟩ [.leaf ⟨5, 5, 10, 10⟩]] := by
+example : G.addAt [0] (.leaf ⟨5, 5, 10, 10⟩) (.grp ⟨0, 0, 0, 0⟩ ⟨0, 0, 0, 0⟩ [G.emptyGrp]) =
+    .grp ⟨5, 5, 10, 10⟩ ⟨5, 5, 10, 10⟩ [.grp ⟨5, 5, 10, 10⟩ ⟨5, 5, 10, 10⟩ [.leaf ⟨5, 5, 10, 10⟩]] := by
   simp [G.addAt, G.emptyGrp, childExtents, G.box, minL, maxL]
+
+/-- non-vacuity for `addAt_path_ok`: a group moved by the setters, then added to -/
+example : G.addAt [] (.leaf ⟨6, 6, 1, 1⟩)
+    (G.setBoxAt [] ⟨900, 900, 5, 5⟩ (.grp ⟨5, 5, 10, 10⟩ ⟨5, 5, 10, 10⟩ [.leaf ⟨5, 5, 10, 10⟩]))
+    = .grp ⟨5, 5, 10, 10⟩ ⟨5, 5, 10, 10⟩ [.leaf ⟨5, 5, 10, 10⟩, .leaf ⟨6, 6, 1, 1⟩] := by
+  simp [G.addAt, G.setBoxAt, childExtents, G.box, minL, maxL]; omega
 
 /-- **Negative theorem** (what the code did before the `fix:` for F-C17-1): appending an empty
     sub-group *without* recalculating leaves a group that is not the bounding box of its members. -/
 theorem append_without_recalc_breaks :
-    ¬ WF (.grp ⟨100, 100, 50, 50⟩ [.leaf ⟨100, 100, 50, 50⟩, G.emptyGrp]) := by
+    ¬ WF (.grp ⟨100, 100, 50, 50⟩ ⟨100, 100, 50, 50⟩ [.leaf ⟨100, 100, 50, 50⟩, G.emptyGrp]) := by
   intro h
   cases h with
-  | grp _ _ hb _ => revert hb; decide
+  | grp _ _ _ hb _ _ => revert hb; decide
 
 /-! ### freeform -/
 
